@@ -219,6 +219,20 @@ def delete_abort_signature(run):
     return all(x.startswith("answers of the live store changed") for x in run.get("fail") or [])
 
 
+def unordered_gap_signature(run):
+    """after a completed replacement (intent log removed) the removal of an out-of-order input that is NOT the newest input
+    returns an I/O error while newer inputs are removed; the failure shows only after restart"""
+    f = run.get("failed") or {}
+    ev = run.get("events") or []
+    if run.get("kind") != "error" or f.get("class") != "remove" or f.get("dir") != "u":
+        return False
+    k = run.get("at", -1)
+    if not any(e["class"] == "logremove" for e in ev[:k]):
+        return False
+    later = [e for e in ev[k + 1:] if e["class"] in ("remove", "rename") and e["dir"] == "u"]
+    return bool(later) and all(x.startswith("answers changed after restart") for x in run.get("fail") or [])
+
+
 def stream_split_signature(ci):
     """streaming compaction (level / full) of a group in which the chunks of one series have, together, more segments than
     max-segment-limit, so that the series must be split over several output files"""
@@ -372,6 +386,10 @@ def main(ck):
             if delete_abort_signature(r) and ck.match_finding("C03-replace-delete-abort"):
                 ck.known_finding("C03-replace-delete-abort", "an I/O error while ReplaceFiles deletes the old files leaves the live store "
                                                              "without the rows of the files handled so far (until restart)")
+                f_known += 1
+            elif unordered_gap_signature(r) and ck.match_finding("C03-unordered-delete-gap"):
+                ck.known_finding("C03-unordered-delete-gap", "an I/O error on removing an older out-of-order input after a merge, while newer "
+                                                             "inputs are removed, lets the older rows win after restart")
                 f_known += 1
             elif f_viol < 3:
                 f_viol += 1
